@@ -41,6 +41,14 @@ class Sym:
 RAISE = 'RAISE'
 
 
+class _FrozenMap(tuple):
+    """A dict literal with evaluated keys and values."""
+
+
+class _Raise(Exception):
+    """Evaluating the expression raises (a missing key)."""
+
+
 def _ev(e, env, assume):
     if isinstance(e, ast.Constant):
         return e.value
@@ -92,6 +100,30 @@ def _ev(e, env, assume):
         except TypeError:
             pass
         raise Unsupported(ast.unparse(e))
+    if isinstance(e, ast.Dict) and all(k is not None for k in e.keys):
+        return _FrozenMap((_ev(k, env, assume), _ev(v, env, assume)) for k, v in zip(e.keys, e.values))
+    if isinstance(e, ast.Subscript):
+        base, idx = _ev(e.value, env, assume), _ev(e.slice, env, assume)
+        if _has_sym(idx) or isinstance(base, Sym):
+            raise Unsupported(ast.unparse(e))
+        try:
+            if isinstance(base, _FrozenMap):
+                return dict(base)[idx]
+            if isinstance(base, tuple) and isinstance(idx, int):
+                return base[idx]
+        except (KeyError, IndexError):
+            raise _Raise()
+        raise Unsupported(ast.unparse(e))
+    if isinstance(e, ast.IfExp):
+        return _ev(e.body, env, assume) if _truth(e.test, env, assume) else _ev(e.orelse, env, assume)
+    if isinstance(e, ast.Call) and isinstance(e.func, ast.Attribute) and e.func.attr == 'get' \
+            and isinstance(e.func.value, (ast.Dict, ast.Name)) and 1 <= len(e.args) <= 2 and not e.keywords:
+        base = _ev(e.func.value, env, assume)
+        if isinstance(base, _FrozenMap):
+            k = _ev(e.args[0], env, assume)
+            if _has_sym(k):
+                raise Unsupported(ast.unparse(e))
+            return dict(base).get(k, _ev(e.args[1], env, assume) if len(e.args) == 2 else None)
     if isinstance(e, ast.Call):
         # a call on symbols only (isinstance(subpixels, int)): opaque condition
         return _sym_bool(e, Sym(ast.unparse(e)), assume)
@@ -154,7 +186,10 @@ def run(func_node, env, assume=None):
                 return ('RET', _ev(st.value, env, assume) if st.value is not None else None)
             raise Unsupported(ast.unparse(st)[:80])
         return None
-    r = block(func_node.body)
+    try:
+        r = block(func_node.body)
+    except _Raise:
+        return (RAISE,)
     if r is None:
         return ('RET', None)
     return r
